@@ -499,7 +499,7 @@ def check_model(ctx, label, arpa, model, mtype, sentences, drv, extdir, query, o
                 fails += oracle_query(s, chains, i, qs[ci][i], ci == 3)
                 results["query_compared"] += 1
         results["evaluations"] += 4
-        case = {"model": label, "arpa": arpa, "arpa_text": open(arpa, "rb").read().decode("latin-1") if arpa.startswith(ctx.scratch) else None,
+        case = {"model": label, "arpa": os.path.relpath(arpa, vlib.REPO) if arpa.startswith(vlib.REPO + os.sep) else arpa, "arpa_text": open(arpa, "rb").read().decode("latin-1") if arpa.startswith(ctx.scratch) else None,
                 "sentence_hex": hx(s), "sentence_repr": repr(s)[:200]}
         for sig, what in fails:
             results["spec_fail"] += 0 if sig in (SIG_NUL, SIG_NUL_WORD) else 1
@@ -601,7 +601,7 @@ def replay(ctx, obj):
     drv = vlib.compile_driver("c14_driver", DRV)
     extdir = build_pyext()
     query = vlib.tool("query")
-    arpa = r["arpa"]
+    arpa = r["arpa"] if os.path.isabs(r["arpa"]) else os.path.join(vlib.REPO, r["arpa"])
     if r.get("arpa_text"):
         arpa = os.path.join(ctx.scratch, "replay.arpa")
         open(arpa, "wb").write(r["arpa_text"].encode("latin-1"))
